@@ -6,7 +6,7 @@
    (update, update_from_dict, update_from_options, update_from_file, profiles = ..., master_section = ...,
    fallback_config = ..., update_vars) applied to Configuration(name), in the specification model. *)
 From Coq Require Import ZArith List Bool String Ascii Lia.
-From Verif Require Import Gen.C19_BoolStates Model.C19_Config Proofs.C19_Config Proofs.C19_Text.
+From Verif Require Import Gen.C19_BoolStates Model.C19_Config Proofs.C19_Config Proofs.C19_Text Proofs.C19_Replace.
 Import ListNotations.
 Open Scope string_scope.
 
@@ -118,6 +118,17 @@ Theorem replace_only_known : forall vars s,
 Proof. intros vars s. exact (replace_unknown_kept 11 vars s). Qed.
 Print Assumptions replace_only_known.
 
+(* MIXED TEXTS.  A text is described as a list of segments: literal text without braces (`Lit`) and references {name} /
+   {name:spec} (`Ref`; name = word characters, spec without braces).  If the values of the known variables contain no
+   braces and their format specifiers are valid, the sequential str.replace of the code equals the simultaneous
+   substitution: every known reference becomes its (formatted) value, everything else - literal text and every
+   unknown reference, with or without format specifier - is kept exactly. *)
+Theorem replace_mixed_texts : forall vars segs,
+  Forall seg_ok segs -> Forall (known_ok vars) segs ->
+  py_replace all_off vars None (render segs) = Ok (render' vars segs).
+Proof. exact replace_mixed. Qed.
+Print Assumptions replace_mixed_texts.
+
 (* text form, PARTIAL: line level.  An entry line `key<pad to 30> = value` as written by entry_as_str is read back
    by the configparser model as option key (lower-cased unless case-sensitive) with exactly that value, a header line
    `[section]` opens that section, and a one-line value is stored unchanged.  Not proved: that textwrap.fill leaves
@@ -154,12 +165,12 @@ Print Assumptions fill_fits_unchanged.
      - section names: non-empty, no "]", no line break, no "__", not starting with a blank; pairwise different;
      - sections non-empty, keys pairwise different; a key is non-empty, has no "=", ":" or line break, no trailing
        whitespace, does not start with "[", "#", ";" or whitespace, and is lower case unless case-sensitive;
-     - values: non-empty, no leading/trailing whitespace, no line break (may contain "=", "{var}", blanks, anything else);
+     - values: empty, or without leading/trailing whitespace and line breaks (may contain "=", "{var}", blanks, ...);
      - metadata: names pairwise different per entry, non-empty, no "=", no line break, no trailing whitespace, lower case
        unless case-sensitive; a metadata value is absent (line `key:meta`) or like a value (line `key:meta = value`)
        (that the option names key / key:meta of a section are then pairwise different is proved, not assumed);
      - every written line (`key<pad 30> = value`, `key:meta<pad> = value`, `key:meta`) fits the width (no wrapping).
-   What stays out (see text_roundtrip_partial): wrapped lines, empty values. *)
+   What stays out (see text_roundtrip_partial): wrapped lines. *)
 Theorem text_roundtrip : forall (cs : bool) (w : nat) (c : config),
   view_ok cs w (c_view c) ->
   answer all_off c (QReadBack w cs) = AContent (Ok (view_content (c_view c))).
@@ -262,12 +273,15 @@ Proof. vm_compute. reflexivity. Qed.
 Example view_ok_example :
   view_ok false 200 (c_view (run all_off [OUpdate (Upd "sa" "k1" "a, b  c = d" None "s" []) true;
                                           OUpdate (Upd "sb" "file_name" "/data/{yyyy}/x-y.txt" (Some "p1") "s" []) true;
-                                          OUpdate (Upd "sa" "k2" "42" None "s" []) true;
+                                          OUpdate (Upd "sa" "k2" "" None "s" []) true;
                                           OProfiles (Some [Some "p1"])] (empty_config "c"))).
 Proof.
   vm_compute c_view. split.
   - repeat constructor; simpl; intuition discriminate.
-  - repeat constructor; simpl; try (intuition discriminate); try discriminate; try reflexivity; try lia.
+  - repeat match goal with
+           | |- wval_ok _ => first [left; reflexivity|right]
+           | |- _ => constructor
+           end; simpl; try (intuition discriminate); try discriminate; try reflexivity; try lia.
 Qed.
 
 Example view_ok_meta_example :
@@ -277,7 +291,24 @@ Example view_ok_meta_example :
 Proof.
   vm_compute c_view. split.
   - repeat constructor; simpl; intuition discriminate.
-  - repeat constructor; simpl; try (intuition discriminate); try discriminate; try reflexivity; try lia.
+  - repeat match goal with
+           | |- wval_ok _ => first [left; reflexivity|right]
+           | |- _ => constructor
+           end; simpl; try (intuition discriminate); try discriminate; try reflexivity; try lia.
+Qed.
+
+Example replace_mixed_example :
+  let segs := [Lit "/data/"; Ref "yyyy" None; Lit "/"; Ref "station" (Some ">6"); Lit "-"; Ref "unknown" (Some "%Y");
+               Ref "yyyy" None; Lit ".txt"] in
+  let vars := [("yyyy", "2021"); ("station", "zimm")] in
+  Forall seg_ok segs /\ Forall (known_ok vars) segs /\
+  render segs = "/data/{yyyy}/{station:>6}-{unknown:%Y}{yyyy}.txt" /\
+  render' vars segs = "/data/2021/  zimm-{unknown:%Y}2021.txt".
+Proof.
+  split; [repeat constructor; discriminate|]. split; [|split; reflexivity].
+  repeat constructor;
+    try (match goal with H : sget _ _ = Some _ |- _ => vm_compute in H; inversion H; subst end;
+         first [reflexivity|eexists; reflexivity]).
 Qed.
 
 Example replace_example :
